@@ -25,6 +25,23 @@ def dual_rail_probs(circuit, in_occ, State):
     return out
 
 
+def all_output_probs(circuit, in_occ, State, floor=1e-14):
+    """Noiseless frequencies WITHOUT qubit post-selection: every visible output holding as many photons as there are qubits
+    (heralds satisfied), including those outside the dual-rail subspace; entries below `floor` are not reported."""
+    u, h, n = circuit.U_full, circuit.heralds, circuit.n_modes
+    vis_in = [m for m in range(n) if m not in h["input"]]
+    vis_out = [m for m in range(n) if m not in h["output"]]
+    nq = len(vis_in) // 2
+    cin = [(g, x) for g, x in zip(vis_in, in_occ) if x] + list(h["input"].items())
+    hout = list(h["output"].items())
+    out = {}
+    for occ in boson.fock(len(vis_out), nq):
+        a = boson.amp_idx(u, cin, [(g, x) for g, x in zip(vis_out, occ) if x] + hout)
+        if abs(a) ** 2 > floor:
+            out[State(list(occ))] = abs(a) ** 2
+    return out
+
+
 def dual_rail_matrix(circuit, nq):
     """Amplitude matrix on the dual-rail basis (heralds satisfied, one photon per qubit)."""
     m, _leak = qr.subspace_matrix(circuit.U_full, circuit.heralds, circuit.n_modes, nq,
